@@ -216,3 +216,20 @@ CHECKS["C08"] = {
         {"pkg": SERVER, "run": "^TestVerif_C08_Concurrent$", "checks": {"quick": 25, "thorough": 1500}, "shards": {"thorough": 2}, "timeout": {"quick": 600}},
     ],
 }
+
+CHECKS["C07"] = {
+    "level": "exploration",
+    "exhaustive_claim": True,
+    "technique": "exhaustive single-bit flips of four genuine first packets (three browser ClientHellos + WebSocket GET) and rapid-generated multi-byte edits/truncations/extensions against AuthFirstPacket on a fresh replay cache (oracle: accept => identity fields, sealed block and ephemeral key equal the genuine ones, checked with an independent parser); exhaustive clock-offset sweep around both window edges; rapid-generated dispatch outcomes (user class x proxy method x key x transport x clock) and admin-gate cases on a real bolt-backed server in a synctest bubble",
+    "level_text": "Decides 'accept implies intact and timely' over every bit of real first packets, the strict two-sided 180 s window at 1 s resolution plus sub-second edges, and the observable outcome of dispatchConnection (handshake reply vs. relay to the redirect target) for bypass/admin/database users with good, exhausted, expired, deleted or unknown records, unknown proxy methods, wrong server key and both transports; the admin API must answer only for admin UID with session id 0.",
+    "level_note": "Flips outside the authenticated fields (server name, cipher list, ...) may legitimately still authenticate, so 'every flip is rejected' is deliberately not asserted. Keys and nonces are sampled.",
+    "rule": "Flips: every bit of every byte of 4 base packets; distinct non-trivial = byte positions. Edits: rapid-drawn xor masks at <=8 positions, truncate/extend by 1..300, sealed-block swap between packets; non-trivial = the mutant still parses as a first packet. Window: offsets -185..185 s step 1 s and edge+-{0,1,500,999 ms} x server sub-second {0,1 ns,0.5 s,0.999999999 s}, both transports; non-trivial = within 2 s of an edge. Outcome/AdminGate: rapid-drawn tuples; distinct = distinct tuples.",
+    "assumptions": ["tlsref.go parses ClientHellos correctly", "AES-GCM and X25519 are correct"],
+    "jobs": [
+        {"pkg": SERVER, "run": "^TestVerif_C07_Flips$", "timeout": {"quick": 600}},
+        {"pkg": SERVER, "run": "^TestVerif_C07_Edits$", "checks": {"quick": 3000, "thorough": 400000}, "shards": {"thorough": 16}},
+        {"pkg": SERVER, "run": "^TestVerif_C07_Window$", "timeout": {"quick": 600}},
+        {"pkg": SERVER, "run": "^TestVerif_C07_Outcome$", "checks": {"quick": 500, "thorough": 30000}, "shards": {"thorough": 16}, "timeout": {"quick": 600}},
+        {"pkg": SERVER, "run": "^TestVerif_C07_AdminGate$", "checks": {"quick": 60, "thorough": 3000}, "shards": {"thorough": 8}, "timeout": {"quick": 600}},
+    ],
+}
